@@ -295,3 +295,77 @@ Q(name="e2_stateless_reset", props=["C07", "C03"], func=r"endpoint\.rs[^>]*>::st
   functions=["Endpoint::stateless_reset (up to the first buffer write)"], pre=sr_pre, post=sr_post, assume=sr_assume, check_stop=True,
   bounds="every inciting datagram length <= 2^32, any rate-limiter state; rng.random_range is an uninterpreted function constrained only by its contract (result in [start,end), panics on an empty range); buffer filling and token computation after Vec::reserve are outside the query",
   replay=("endpoint_stateless_reset_native", lambda m: dict(inciting_len=min(m.get("|in:_3|", 0), 65535))))
+
+
+# ------------------------------------------------------------------ C14: IncomingToken::from_header decision logic
+I64 = ("bv", 64, True)
+
+
+def _sc(c, name):
+    return "*_2.%d" % c.field("config/mod.rs", "ServerConfig", name)
+
+
+def tok_pre(c):
+    return "true"
+
+
+def _time_lt(c, p, a_root, n_root):
+    st = p.p.state
+    rk = lambda k, s: c.ex.read_key(st, k, s).t
+    a_s, n_s = rk(a_root + ".0.0.0", I64), rk(n_root + ".0.0.0", I64)
+    a_n, n_n = rk(a_root + ".0.0.1.0", ("bv", 32, False)), rk(n_root + ".0.0.1.0", ("bv", 32, False))
+    return or_("(bvslt %s %s)" % (a_s, n_s), and_(eq(a_s, n_s), "(bvult %s %s)" % (a_n, n_n)))
+
+
+def tok_post(c, p):
+    st = p.p.state
+    is_err = eq(p.ret("#discr", I64), bv(1))
+    validated = ite(is_err, "false", p.ret("@Ok.0.2", BOOL))
+    dec = p.called(r"Token::decode")
+    token_len = c.inp("*_1.%d.1" % c.field("packet.rs", "InitialHeader", "token"), BV64)
+    if not dec:
+        # empty token: never validated, never an error
+        return and_(eq(token_len, bv(0)), not_(is_err), not_(validated))
+    root = dec[0][2]
+    some = eq(c.ex.read_key(st, root + "#discr", I64).t, bv(1))
+    kind = c.ex.read_key(st, root + "@Some.0.0#discr", I64).t    # TokenPayload: Retry = 0, Validation = 1
+    adds, nows = p.called(r"Add<Duration>>::add"), p.called(r"TimeSource>::now")
+    eqs, raws, logs = p.called(r"SocketAddr as PartialEq>::eq"), p.called(r"raw_eq|compare_bytes"), p.called(r"check_and_insert")
+    expired = _time_lt(c, p, adds[0][2], nows[0][2]) if adds and nows else None
+    conj = [imp(not_(some), and_(not_(is_err), not_(validated)))]
+    # --- Retry tokens: exact address AND port, within retry_token_lifetime; otherwise an error
+    retry_ok = and_(eqs[0][2], not_(expired)) if (eqs and expired is not None) else "false"
+    retry_bad = not_(eqs[0][2]) if (eqs and expired is None) else (or_(not_(eqs[0][2]), expired) if eqs else "false")
+    conj.append(imp(and_(some, eq(kind, bv(0))), and_(eq(validated, retry_ok), eq(is_err, retry_bad))))
+    if adds and eqs:
+        # the lifetime that was added to `issued` is the RETRY lifetime
+        arg = adds[0][1][1][1]
+        conj.append(imp(and_(some, eq(kind, bv(0))), "true" if st.alias.get(arg) == _sc(c, "retry_token_lifetime") else "false"))
+    # --- NEW_TOKEN tokens: never an error; validated needs IP equality, lifetime and the reuse log
+    val_ok = "false"
+    if logs:
+        log_ok = eq(c.ex.read_key(st, logs[0][2] + "#discr", I64).t, bv(0))
+        ip_ok = raws[0][2] if raws else "false"
+        val_ok = and_(ip_ok, not_(expired) if expired is not None else "false", log_ok)
+        arg = adds[0][1][1][1]
+        conj.append(imp(and_(some, eq(kind, bv(1))), "true" if st.alias.get(arg, "").startswith(_sc(c, "validation_token")) else "false"))
+    conj.append(imp(and_(some, eq(kind, bv(1))), and_(not_(is_err), eq(validated, val_ok))))
+    return and_(*conj)
+
+
+Q(name="e2_token_from_header", props=["C14"], func=r"token\.rs[^>]*>::from_header$",
+  pure=[r"Token::decode", r"PartialEq>::eq", r"Add<Duration>>::add", r"TimeSource>::now", r"check_and_insert", r"raw_eq", r"compare_bytes"],
+  functions=["IncomingToken::from_header"], pre=tok_pre, post=tok_post,
+  bounds="every outcome of Token::decode (None / Retry / Validation payload with arbitrary content), of the address comparisons, of the clock and of the reuse log (all uninterpreted); lifetimes and instants are arbitrary (SystemTime + Duration opaque, comparison exact)",
+  replay=("token_from_header_native", lambda m: [
+      dict(retry=1, same_ip=1, same_port=0, age=1, lifetime=5, log_ok=1, corrupt=0),
+      dict(retry=1, same_ip=1, same_port=1, age=9, lifetime=5, log_ok=1, corrupt=0),
+      dict(retry=1, same_ip=1, same_port=1, age=5, lifetime=5, log_ok=0, corrupt=0),
+      dict(retry=1, same_ip=0, same_port=1, age=1, lifetime=5, log_ok=1, corrupt=0),
+      dict(retry=0, same_ip=1, same_port=0, age=1, lifetime=5, log_ok=1, corrupt=0),
+      dict(retry=0, same_ip=1, same_port=1, age=1, lifetime=5, log_ok=0, corrupt=0),
+      dict(retry=0, same_ip=0, same_port=1, age=1, lifetime=5, log_ok=1, corrupt=0),
+      dict(retry=0, same_ip=1, same_port=1, age=9, lifetime=5, log_ok=1, corrupt=0),
+      dict(retry=0, same_ip=1, same_port=1, age=5, lifetime=5, log_ok=1, corrupt=0),
+      dict(retry=1, same_ip=1, same_port=1, age=1, lifetime=5, log_ok=1, corrupt=1),
+      dict(retry=0, same_ip=1, same_port=1, age=1, lifetime=5, log_ok=1, corrupt=1)]))
